@@ -1,7 +1,7 @@
 (* Props/C08.v — a faulted worker is detected, bypassed and replaced; the accept thread never panics or spins.
    ONLY statements, each closed by `exact <lemma>`, with Print Assumptions. *)
 From Coq Require Import List ZArith NArith Bool.
-From AN Require Import Model.Srv Proofs.SrvInv Proofs.SrvFault Proofs.SrvRotation.
+From AN Require Import Model.Srv Proofs.SrvInv Proofs.SrvFault Proofs.SrvRotation Proofs.SrvPauseB Proofs.SrvStrand.
 Import ListNotations.
 
 (* For EVERY script — any number of worker deaths at any point (idle, partially loaded, saturated, inside the
@@ -84,7 +84,50 @@ Example C08_example :
   In (EvDropNoWorker 3) (trace st) /\ In (EvFaulted 0) (trace st) /\ In (EvFaulted 1) (trace st).
 Proof. vm_compute. repeat split; auto 30. Qed.
 
+(* "... with a single worker service resumes once the replacement is up": from ANY reachable state (any number of faults
+   before) whose waker queue holds the replacement's handle, one handle_waker call ends with the queue drained and, unless
+   the loop is stopped or paused, with every flagged worker exhausted or EVERY listener's backlog empty (back-off and
+   injected errors excepted): the connections that piled up while no worker could take them are dispatched at once. *)
+Theorem C08_resume : forall (L : Z) W kinds os g,
+  forallb nwb_op os = true ->
+  let st := run L (init W kinds) os in
+  live st = true -> In (IWorker g) (wq st) ->
+  let st' := step L st (HandleWaker []) in
+  err st' = None ->
+  (stopped st' = true \/ wq st' = []) /\
+  (stopped st' = false -> paused st' = false -> available (av st') = true ->
+   forall tok l, nth_error (lsts st') tok = Some l -> l_backlog l = [] \/ l_inject l <> [] \/ l_to l <> None).
+Proof. exact worker_handle_drains. Qed.
+
+(* ... and in every state of every run, faults included, nothing is stranded (see Props/C03.v, C03_no_strand_all) *)
+Theorem C08_no_strand : forall (L : Z) W kinds os,
+  1 <= W <= 512 -> forallb wf_op os = true -> forallb (tok_ok (length kinds)) os = true -> forallb nwb_op os = true ->
+  let st := run L (init W kinds) os in
+  err st = None /\
+  (stopped st = false ->
+   (wq st <> [] -> wpend st = true) /\
+   forall tok l, nth_error (lsts st) tok = Some l ->
+     paused st = false -> available (av st) = true -> l_backlog l <> [] -> l_inject l = [] ->
+       (l_reg l = true /\ l_edge l = true) \/
+       (exists d t, l_to l = Some d /\ (d <= now st + 500)%N /\ ptimeout st = Some t /\ (t <= 510)%N)).
+Proof. exact no_strand_all. Qed.
+
+(* non-vacuity of C08_resume: single worker, limit 2; it dies; client 1's dispatch discovers the fault and is dropped
+   ("no workers"), clients 2 and 3 pile up in the backlog (no worker is flagged: accept returns at once); the replacement's
+   handle arrives; one handle_waker call dispatches both to the new generation *)
+Example C08_resume_example :
+  let os := [E (Kill 0); E (Connect 0 1); Turn []; E (Connect 0 2); E (Connect 0 3); Turn []; E (Respawn 0)] in
+  let st := run 2 (init 1 [false]) os in
+  let st' := step 2 st (HandleWaker []) in
+  forallb nwb_op os = true /\ live st = true /\ In (IWorker 1) (wq st) /\ map l_backlog (lsts st) = [[2%N; 3%N]] /\
+  err st' = None /\
+  (map (fun w => map c_id (w_queue w)) (ws st'), map l_backlog (lsts st'), handles st', wq st') =
+  ([[]; [2%N; 3%N]], [[]], [1], []).
+Proof. vm_compute. repeat split; auto. Qed.
+
 Print Assumptions C08_no_panic_no_spin.
+Print Assumptions C08_resume.
+Print Assumptions C08_no_strand.
 Print Assumptions C08_detect.
 Print Assumptions C08_reroute.
 Print Assumptions C08_bypass.
